@@ -127,6 +127,13 @@ End GMP.
 Definition gmp1 (drift : list Qc) (amp xi : list Qc) (x0 : Qc) : list Qc :=
   gmp Qc Qc Qcplus Qcmult 0 1 (fun i => nth i drift (last drift 0)) (map2 Qcmult amp xi) x0.
 
+(* time-independent scalar drift: the else-branch of
+     d = drift[i] if len(drift.shape) > 2 else drift
+   (scalar_gauss_markov_process leaves a scalar drift alone: `if not _isscalar(drift): drift = drift[:, None, None]`),
+   so every iteration uses the same d, at every index i up to res.size *)
+Definition gmp1_cd (d : Qc) (amp xi : list Qc) (x0 : Qc) : list Qc :=
+  gmp Qc Qc Qcplus Qcmult 0 1 (fun _ => d) (map2 Qcmult amp xi) x0.
+
 (* 2-D states, matrices row-major ((a, b), (c, d)) *)
 Definition mat := ((Qc * Qc) * (Qc * Qc))%type.
 Definition mv (m : mat) (v : Qc * Qc) : Qc * Qc :=
@@ -328,3 +335,7 @@ Definition chk_iwp_cols_start (tol c0 c1 : Q) (sigma s dt r : list Q) (obs : lis
   list_eqb (row_match (pair_cmp (qc_close (Q2Qc tol))) (0, 0))
            (iwp_cols [(Q2Qc c0, 0); (0, Q2Qc c1)] (map iwp_drift (qcl dt)) (iwp_amps (qcl sigma) (qcl s) (qcl dt) (qcl r)))
            (map qcpl obs).
+
+(* scalar generic generator called with a scalar (time-independent) drift *)
+Definition chk_gmp1_cd (d : Q) (amp xi : list Q) (x0 : Q) (obs : list Q) : bool :=
+  list_eqb qc_eqb (gmp1_cd (Q2Qc d) (qcl amp) (qcl xi) (Q2Qc x0)) (qcl obs).
